@@ -1,0 +1,154 @@
+//go:build verif
+
+package object
+
+import enc "github.com/named-data/ndnd/std/encoding"
+
+// Contracts for the gcv verifier: std/object, property C15 (a published object is retrieved byte-for-byte).
+
+// ---- executable counterparts of the contract pseudo-builtins ---------------------------------
+
+func forallIn(lo, hi int, f func(int) bool) bool {
+	for i := lo; i < hi; i++ {
+		if !f(i) {
+			return false
+		}
+	}
+	return true
+}
+
+func implies(a, b bool) bool { return !a || b }
+
+// ---- segmentation ----------------------------------------------------------------------------------
+
+// specWireLen(w, k): number of content bytes in the first k buffers of w (the "concatenation of the input
+// buffers" of the property statement has length specWireLen(w, len(w))).
+func specWireLen(w enc.Wire, k int) int {
+	if k <= 0 {
+		return 0
+	}
+	return specWireLen(w, k-1) + len(w[k-1])
+}
+
+// specSegCount: number of segments of an object of size bytes: ceil(size / segment size).
+func specSegCount(size int) int { return (size + pSegmentSize - 1) / pSegmentSize }
+
+// A-MEM (DESIGN.md section 6): the buffers reachable from one value total less than 2^48 bytes, so prefix sums
+// of buffer lengths are non-negative, monotone and do not wrap. Assumed, not proved.
+//
+//@ func lemmaWireLenMono
+//@   trusted
+//@   requires 0 <= j && j <= i && i <= len(w)
+//@   ensures 0 <= specWireLen(w, j) && specWireLen(w, j) <= specWireLen(w, i) && specWireLen(w, i) <= 281474976710656
+
+func lemmaWireLenMono(w enc.Wire, j, i int) {}
+
+// A-DEP: the engine hands out a packet codec, and MakeData returns a packet or an error (documented interface behaviour).
+//
+//@ func (github.com/named-data/ndnd/std/ndn.Engine).Spec
+//@   trusted
+//@   ensures result != nil
+
+//@ func (github.com/named-data/ndnd/std/ndn.Spec).MakeData
+//@   trusted
+//@   ensures result1 == nil ==> result0 != nil
+
+// (*Client).Produce, segmentation loop. The segments are not returned (they are handed to Spec().MakeData and
+// store.Put), so the property is stated as invariants of the two nested loops. With
+//     W = args.Content (as at entry), i = index in W of the buffer being cut = sliceOff(content)-sliceOff(W),
+//     consumed = specWireLen(W, i) + (bytes already cut off W[i]),
+// the invariants say:
+//   * content is the not yet consumed suffix of W, content[0] is a suffix of the buffer W[i] (same backing array:
+//     every piece appended to a segment is a sub-slice of an input buffer, in order, without gap or overlap);
+//   * at the head of the outer loop consumed == seg*8000 while input remains: every segment but the last has
+//     exactly 8000 bytes; in the inner loop consumed == seg*8000 + segContentSize and segContentSize <= 8000;
+//   * when the input is exhausted consumed == contentSize and seg == lastSeg+1 == ceil(contentSize/8000).
+//
+//@ func (*Client).Produce
+//@   uses lemmaWireLenMono
+//@   requires c.engine != nil && c.store != nil
+//@   requires [no-empty-buffer] forallIn(0, len(args.Content), func(j int) bool { return len(args.Content[j]) > 0 && specWireLen(args.Content, j) >= 0 })
+//@   modifies args.Content[*]
+//@   loop 1 invariant contentSize == old(specWireLen(args.Content, rangeindex+1))
+//@   loop 2 invariant contentSize == old(specWireLen(args.Content, len(args.Content))) && contentSize > 0 && lastSeg == uint64((contentSize-1)/8000)
+//@   loop 2 invariant sliceArr(content) == sliceArr(args.Content) && sliceOff(content) >= sliceOff(args.Content) && sliceOff(content)-sliceOff(args.Content)+len(content) == len(args.Content)
+//@   loop 2 invariant [rest-untouched] unchangedExcept(args.Content, 0, sliceOff(content)-sliceOff(args.Content)+1)
+//@   loop 2 invariant [nonempty] len(content) > 0 ==> len(content[0]) > 0 && old(specWireLen(args.Content, sliceOff(content)-sliceOff(args.Content))) >= 0
+//@   loop 2 invariant [same-buffer] len(content) > 0 ==> sliceArr(content[0]) == old(sliceArr(args.Content[sliceOff(content)-sliceOff(args.Content)]))
+//@   loop 2 invariant [buffer-suffix] len(content) > 0 ==> sliceOff(content[0])+len(content[0]) == old(sliceOff(args.Content[sliceOff(content)-sliceOff(args.Content)])+len(args.Content[sliceOff(content)-sliceOff(args.Content)]))
+//@   loop 2 invariant len(content) > 0 ==> len(content[0]) <= old(len(args.Content[sliceOff(content)-sliceOff(args.Content)]))
+//@   loop 2 invariant [full-segments] len(content) > 0 ==> old(specWireLen(args.Content, sliceOff(content)-sliceOff(args.Content)+1)) - len(content[0]) == int(seg)*8000
+//@   loop 2 invariant [count] len(content) == 0 ==> seg == lastSeg+1 && int(seg) == specSegCount(contentSize)
+//@   loop 2 invariant seg <= lastSeg+1
+//@   loop 3 invariant sliceArr(content) == sliceArr(args.Content) && sliceOff(content) >= sliceOff(args.Content) && sliceOff(content)-sliceOff(args.Content)+len(content) == len(args.Content)
+//@   loop 3 invariant [rest-untouched] unchangedExcept(args.Content, 0, sliceOff(content)-sliceOff(args.Content)+1)
+//@   loop 3 invariant [nonempty] len(content) > 0 ==> len(content[0]) > 0 && old(specWireLen(args.Content, sliceOff(content)-sliceOff(args.Content))) >= 0
+//@   loop 3 invariant [same-buffer] len(content) > 0 ==> sliceArr(content[0]) == old(sliceArr(args.Content[sliceOff(content)-sliceOff(args.Content)]))
+//@   loop 3 invariant [buffer-suffix] len(content) > 0 ==> sliceOff(content[0])+len(content[0]) == old(sliceOff(args.Content[sliceOff(content)-sliceOff(args.Content)])+len(args.Content[sliceOff(content)-sliceOff(args.Content)]))
+//@   loop 3 invariant len(content) > 0 ==> len(content[0]) <= old(len(args.Content[sliceOff(content)-sliceOff(args.Content)]))
+//@   loop 3 invariant 0 <= segContentSize && segContentSize <= 8000
+//@   loop 3 invariant fresh(segContent) && sliceArr(segContent) != sliceArr(args.Content)
+//@   loop 3 invariant [segment-bytes] len(content) > 0 ==> old(specWireLen(args.Content, sliceOff(content)-sliceOff(args.Content)+1)) - len(content[0]) == int(seg)*8000 + segContentSize
+//@   loop 3 invariant [last-segment] len(content) == 0 ==> contentSize == int(seg)*8000 + segContentSize && segContentSize > 0
+
+// ---- store_memory.go ------------------------------------------------------------------------------------
+//
+// Local contracts of the in-memory store trie (the whole-store view Name -> (version, wire) needs a recursive
+// heap-dependent spec function under mutation; see REPORT.md).
+
+// The key of a child is Component.String(); its (trusted, A-DEP) contract `result == specCompKey(c)` is declared once,
+// in std/engine/basic/zz_verif_contracts.go (gcv rejects a second contract for the same function), hence basic.specCompKey.
+
+// find: the node at path `name` below n; absent when a component has no (non-nil) child.
+//
+//@ func (*memoryStoreNode).find
+//@   decreases len(name)
+//@   ensures len(name) == 0 ==> result == n
+//@   ensures len(name) > 0 && n.children == nil ==> result == nil
+//@   ensures len(name) == 1 && n.children != nil ==> result == n.children[basic.specCompKey(name[0])]
+//@   ensures len(name) > 0 && n.children != nil && n.children[basic.specCompKey(name[0])] == nil ==> result == nil
+
+// insert at the node itself stores exactly the given packet and version ("what is put is what is served").
+//
+//@ func (*memoryStoreNode).insert
+//@   modifies all(memoryStoreNode), all(memoryStoreKids)
+//@   decreases len(name)
+//@   ensures len(name) == 0 ==> sameSlice(n.wire, wire) && n.version == version
+//@   ensures len(name) > 0 ==> n.children != nil && n.children[basic.specCompKey(name[0])] != nil
+//@   ensures len(name) > 0 ==> sameSlice(n.wire, old(n.wire)) && n.version == old(n.version)
+
+// remove: "packets removed from a store are no longer served": the addressed node loses its packet, and with
+// prefix=true its whole subtree; the result tells the parent whether the node may be pruned, which is only allowed
+// for a node that serves nothing (no packet, no children).
+//
+//@ func (*memoryStoreNode).remove
+//@   modifies all(memoryStoreNode), all(memoryStoreKids)
+//@   decreases len(name)
+//@   ensures len(name) == 0 ==> n.wire == nil && n.version == 0
+//@   ensures len(name) == 0 && prefix ==> n.children == nil
+//@   ensures [prune-only-empty] result ==> n.wire == nil && len(n.children) == 0
+//@   ensures len(name) > 0 ==> sameSlice(n.wire, old(n.wire)) && n.version == old(n.version)
+
+type memoryStoreKids = map[string]*memoryStoreNode
+
+// ---- client_consume_seg.go: window bookkeeping of the segment fetcher ---------------------------------------
+
+// wfConsume: the receive window of a consumer state: 0 <= wnd[0] <= wnd[1] <= segCnt once the segment count is
+// known, the reassembly buffer has one slot per segment, and every slot below wnd[1] is filled.
+func wfConsume(st *ConsumeState) bool {
+	return 0 <= (&st.wnd)[0] && (&st.wnd)[0] <= (&st.wnd)[1] &&
+		implies(st.segCnt == -1, (&st.wnd)[1] == 0) &&
+		implies(st.segCnt != -1, 0 < st.segCnt && (&st.wnd)[1] <= st.segCnt && len(st.content) == st.segCnt &&
+			forallIn(0, (&st.wnd)[1], func(j int) bool { return st.content[j] != nil }))
+}
+
+//@ func (*rrSegFetcher).handleData
+//@   requires state != nil && wfConsume(state) && state.callback != nil
+//@   requires args.Result == ndn.InterestResultData ==> args.Data != nil
+//@   modifies s.outstanding, deep(state), state.content[*], s.streams, all([]int)
+//@   ensures [window-wf] state.err == nil ==> wfConsume(state)
+//@   ensures old(state.complete) ==> state.complete && (&state.wnd)[1] == old((&state.wnd)[1])
+//@   ensures [complete-iff-all] !old(state.complete) && state.complete && state.err == nil ==> (&state.wnd)[1] == state.segCnt
+//@   ensures (&state.wnd)[0] == old((&state.wnd)[0]) && (&state.wnd)[1] >= old((&state.wnd)[1])
+//@   loop 1 invariant state.segCnt != -1 && 0 < state.segCnt && len(state.content) == state.segCnt && old((&state.wnd)[1]) <= (&state.wnd)[1] && (&state.wnd)[1] <= state.segCnt && (&state.wnd)[0] == old((&state.wnd)[0])
+//@   loop 1 invariant forallIn(0, (&state.wnd)[1], func(j int) bool { return state.content[j] != nil })
